@@ -253,7 +253,7 @@ func runBin(bin string, env []string, timeout time.Duration, memMB int, args ...
 }
 
 func replayOne(bin, path string, memMB int) (violated bool, sig, detail string, ran bool, res procResult) {
-	res = runBin(bin, []string{"VERIF_REPLAY=" + path}, 180*time.Second, memMB, "-test.run", ".", "-test.timeout", "170s")
+	res = runBin(bin, []string{"VERIF_REPLAY=" + path}, 180*time.Second, memMB, "-test.run", "^Test", "-test.timeout", "170s")
 	for _, line := range strings.Split(res.out, "\n") {
 		if strings.HasPrefix(line, "REPLAY-RAN ") {
 			ran = true
@@ -503,7 +503,7 @@ func run(id, tier string) int {
 				env = append(env, "GORACE=halt_on_error=1 exitcode=66")
 			}
 			shardRes[i] = runBin(bin, env, time.Duration(timeout+30)*time.Second, c.MemLimitMB,
-				"-test.run", ".", "-test.timeout", strconv.Itoa(timeout)+"s")
+				"-test.run", "^Test", "-test.timeout", strconv.Itoa(timeout)+"s")
 			_ = os.WriteFile(filepath.Join(tmp, fmt.Sprintf("shard%d.log", i)), []byte(shardRes[i].out), 0o644)
 		}(i)
 	}
